@@ -96,11 +96,17 @@ def task_from_handle(
     # it would be possible by replacing the callable with a custom class instance
     # with extra information, but it requires cooperation from the Task
     try:
-        task = handle._callback.__self__  # type: ignore
+        callback = handle._callback  # type: ignore
+        task = callback.__self__
     except AttributeError:
         return None
     if isinstance(task, TaskTypes):
-        return cast(TaskAny, task)
+        # Only the step and wakeup callbacks of a Task make it runnable.  Other
+        # bound methods of a Task (e.g. `loop.call_soon(task.cancel)`) do not.
+        name = getattr(callback, "__name__", None) or type(callback).__name__
+        name = name.lower()
+        if "step" in name or "wakeup" in name:
+            return cast(TaskAny, task)
     return None
 
 
